@@ -46,6 +46,15 @@ Theorem C16_wf_every_prefix : forall xs k per sc cl sf, env_run (init_cat_o per 
 Proof. intros xs k per sc cl sf E. apply (good_run_prefix xs _ k (good_init per sc cl sf) E). Qed.
 Print Assumptions C16_wf_every_prefix.
 
+(* cancelling the deletion of a shard group (DeleteShardGroup with CancelDelete) behind the interval-overlap guard of the code
+   (/repo b51128b: no live group of the same engine kind overlaps the revived span, wherever it lies in it): the live groups stay
+   pairwise disjoint, sorted, inside their cells - whatever durations the groups were created under. A guard that only looks at who
+   serves the start of the revived group is refuted in Refuted.v (C16_cancel_start_only_refuted). *)
+Theorem C16_cancel_keeps_disjoint : forall c db rp id, wf c -> all_aligned c -> safecancel c = true ->
+  wf (fst (cancel_delete_sg c db rp id)).
+Proof. exact wf_cancel_delete_sg. Qed.
+Print Assumptions C16_cancel_keeps_disjoint.
+
 (* the C14 clause as a clause about the catalogue: the index group of every shard does not end before the shard's group;
    preserved by every command (index groups created as in /repo 76d3742) *)
 Theorem C16_cover_preserved : forall c x, wf c -> covered c -> env_ok c x -> covered (fst (apply_repaired c x)).
